@@ -5,7 +5,6 @@ import (
 	"encoding/json"
 	"fmt"
 	"go/ast"
-	"io"
 	"math/rand"
 	"runtime"
 	"runtime/debug"
@@ -13,8 +12,20 @@ import (
 	"strings"
 	"sync"
 
+	"context"
+	"io"
+	"math"
+	"time"
+
+	"github.com/prometheus/prometheus/model/labels"
+	"google.golang.org/grpc"
+
+	"github.com/thanos-io/thanos/pkg/component"
 	"github.com/thanos-io/thanos/pkg/pool"
+	"github.com/thanos-io/thanos/pkg/store"
+	"github.com/thanos-io/thanos/pkg/store/labelpb"
 	"github.com/thanos-io/thanos/pkg/store/storepb"
+	storetestutil "github.com/thanos-io/thanos/pkg/store/storepb/testutil"
 	"github.com/thanos-io/thanos/zzverif/common"
 )
 
@@ -28,8 +39,51 @@ type mop struct {
 	Close *int  `json:"close,omitempty"` // matcher index
 }
 
+// ---- a sharded request through the real ProxyStore ---------------------------------
+
+type fakeStore struct {
+	storepb.StoreClient
+	frames []*storepb.SeriesResponse
+}
+
+type fakeStream struct {
+	grpc.ClientStream
+	ctx    context.Context
+	frames []*storepb.SeriesResponse
+	i      int
+}
+
+func (f *fakeStore) Series(ctx context.Context, _ *storepb.SeriesRequest, _ ...grpc.CallOption) (storepb.Store_SeriesClient, error) {
+	return &fakeStream{ctx: ctx, frames: f.frames}, nil
+}
+
+func (s *fakeStream) Recv() (*storepb.SeriesResponse, error) {
+	if s.i >= len(s.frames) {
+		return nil, io.EOF
+	}
+	r := s.frames[s.i]
+	s.i++
+	return r, nil
+}
+func (s *fakeStream) Context() context.Context { return s.ctx }
+func (s *fakeStream) CloseSend() error         { return nil }
+
+type recServer struct {
+	storepb.Store_SeriesServer
+	n int
+}
+
+func (r *recServer) Send(*storepb.SeriesResponse) error { r.n++; return nil }
+func (r *recServer) Context() context.Context            { return context.Background() }
+
 type input struct {
-	Kind   string  `json:"kind"` // pool | shard
+	// proxy: Stores fake stores with Series series each; sharded request; Lazy retrieval; Limit on the request
+	Stores  int   `json:"stores,omitempty"`
+	Series  int   `json:"series,omitempty"`
+	Sharded bool  `json:"sharded,omitempty"`
+	Lazy    bool  `json:"lazy,omitempty"`
+	Limit   int64 `json:"limit,omitempty"`
+	Kind   string  `json:"kind"` // pool | shard | proxy
 	Min    int     `json:"min,omitempty"`
 	Max    int     `json:"max,omitempty"`
 	Factor float64 `json:"factor,omitempty"`
@@ -224,6 +278,61 @@ func run(raw json.RawMessage) (common.Case, error) {
 		}
 		c.Nontrivial = in.MaxTot > 0 && len(ops) >= 3
 		return c, nil
+	case "proxy":
+		runtime.GOMAXPROCS(1)
+		old := debug.SetGCPercent(-1)
+		defer debug.SetGCPercent(old)
+		var clients []store.Client
+		for i := 0; i < in.Stores; i++ {
+			fs := &fakeStore{}
+			for j := 0; j < in.Series; j++ {
+				fs.frames = append(fs.frames, storepb.NewSeriesResponse(&storepb.Series{
+					Labels: []labelpb.ZLabel{{Name: "a", Value: fmt.Sprintf("s%02d_%03d", i, j)}},
+					Chunks: []storepb.AggrChunk{{MinTime: 1, MaxTime: 2, Raw: &storepb.Chunk{Data: []byte{byte(i), byte(j)}}}},
+				}))
+			}
+			clients = append(clients, &storetestutil.TestClient{StoreClient: fs, Name: fmt.Sprintf("store%d", i),
+				MinTime: math.MinInt64, MaxTime: math.MaxInt64})
+		}
+		strategy := store.EagerRetrieval
+		if in.Lazy {
+			strategy = store.LazyRetrieval
+		}
+		p := store.NewProxyStore(nil, nil, func() []store.Client { return clients }, component.Query, labels.EmptyLabels(),
+			10*time.Second, strategy)
+		req := &storepb.SeriesRequest{MinTime: 0, MaxTime: 1000,
+			Matchers: []storepb.LabelMatcher{{Type: storepb.LabelMatcher_NEQ, Name: "__verif__", Value: "x"}},
+			Limit:    in.Limit, PartialResponseStrategy: storepb.PartialResponseStrategy_WARN}
+		if in.Sharded {
+			req.ShardInfo = &storepb.ShardInfo{ShardIndex: 0, TotalShards: 2, By: true, Labels: []string{"a"}}
+		}
+		srv := &recServer{}
+		if err := p.Series(req, srv); err != nil {
+			return c, fmt.Errorf("proxy Series: %w", err)
+		}
+		// take more buffers out of the proxy's pool than the request can have put back: a pointer
+		// that comes out twice was put twice
+		seenPtr := map[*[]byte]int{}
+		dup := false
+		for k := 0; k < 2*in.Stores+3; k++ {
+			b := p.VerifC17TakeBuffer()
+			seenPtr[b]++
+			if seenPtr[b] > 1 {
+				dup = true
+			}
+		}
+		c.Coq = common.App("CProxy", common.Nat(in.Stores), common.Bool(in.Sharded), common.Bool(dup))
+		c.Obs = map[string]any{"responses": srv.n, "buffer_taken_twice": dup}
+		c.Class = "proxy"
+		if in.Sharded {
+			c.Class = "proxy/sharded"
+		}
+		c.Nontrivial = in.Sharded && in.Stores >= 1
+		if dup {
+			c.GoPred = "after a sharded ProxyStore.Series request the same buffer came out of the proxy's pool twice"
+			c.Sig = "proxy-buffer-twice"
+		}
+		return c, nil
 	case "shard":
 		runtime.GOMAXPROCS(1)
 		old := debug.SetGCPercent(-1)
@@ -299,7 +408,14 @@ func gen(r *rand.Rand, tier string, n int) []any {
 		maxOps = 60
 	}
 	ip := func(v int) *int { return &v }
-	for i := 0; i < n; i++ {
+	for i := 0; i < n/20; i++ {
+		in := input{Kind: "proxy", Stores: 1 + r.Intn(5), Series: r.Intn(6), Sharded: r.Intn(4) != 0, Lazy: r.Intn(2) == 0}
+		if r.Intn(4) == 0 {
+			in.Limit = int64(1 + r.Intn(4))
+		}
+		out = append(out, in)
+	}
+	for i := 0; i < n-n/20; i++ {
 		if r.Intn(4) != 0 {
 			in := input{Kind: "pool", Factor: common.Pick(r, 2.0, 2.0, 1.5, 3.0, 1.0)}
 			in.Min = 1 + r.Intn(16)
